@@ -352,17 +352,22 @@ def main(tier, seed):
                  "read_pv", "str_edit", "str_def"]
     two = ["def_a", "inc_a", "read_a", "partial", "read_bc", "req_good",
            "bump", "req_missing", "env_def", "env_read", "say", "str_edit"]
+    light = ("div0", "syntax", "req_syn", "req_missing", "loop_err",
+             "read_q", "def_fail", "str_def")
     if tier == "quick":
-        light = ("div0", "syntax", "req_syn", "req_missing", "loop_err",
-                 "read_q", "def_fail", "str_def")
         plan1 = [(ORDER, 2), ([c for c in ORDER if c not in light], 3),
                  (["def_a", "read_a", "partial", "call_g",
                                "req_good", "bump", "req_broken",
                                "req_as", "env2_read", "env2_fail"], 4)]
         plan2 = [(two, 3)]
     else:
-        plan1 = [(ORDER, 4), (core_cmds, 5)]
-        plan2 = [(two + ["def_f", "call_f", "req_cyc"], 4)]
+        # (sized from measured cost: about 2 ms per step, both module
+        # configurations)
+        plan1 = [(ORDER, 3), ([c for c in ORDER if c not in light], 4),
+                 (["def_a", "inc_a", "read_a", "partial", "read_bc",
+                   "req_good", "bump", "req_broken", "req_as", "env2_read",
+                   "env2_fail", "call_g"], 5)]
+        plan2 = [(two, 4)]
     configs = ["home"] if tier == "quick" else ["home", "path"]
     for config in configs:
         write_modules(config)
@@ -392,9 +397,10 @@ def main(tier, seed):
         agg.merge(fa)
     core.finish(
         PID, tier, seed, agg, t0,
-        rule=(f"one interpreter: all sequences of length <= {plan1[0][1]} "
-              f"over all {len(ORDER)} session commands and of length <= "
-              f"{plan1[1][1]} over {len(plan1[1][0])} core commands; two "
+        rule=(f"one interpreter: " + "; ".join(
+                  f"all sequences of length <= {d} over {len(c)} commands"
+                  for c, d in plan1) + f" (of {len(ORDER)} session "
+              f"commands); two "
               f"interpreters: all sequences of length <= {plan2[0][1]} over "
               f"{len(plan2[0][0])} commands x every A/B tagging; module files in {configs}; fork-snapshot "
               f"trie (one fork per step), every response compared with the "
